@@ -3,7 +3,7 @@
 (* contains every rejected kind (duplicate study, finished trial, unknown id, incompatible           *)
 (* distribution), with every sync point, every batch split, snapshot save/restore and re-opening.    *)
 EXTENDS JournalReplay
-CONSTANTS Workers, MaxLog
+CONSTANTS Workers, MaxLog, SmallPool
 
 VARIABLES log, cur, stW, snap, lastRaise
 vars == <<log, cur, stW, snap, lastRaise>>
@@ -12,18 +12,18 @@ DF  == [c |-> "float", g |-> 0, k |-> 0]
 DC0 == [c |-> "cat", g |-> 0, k |-> 0]
 WaitingT == [has |-> 1, state |-> "WAITING", values |-> NoneV, params |-> EmptyMap, ua |-> EmptyMap, sa |-> EmptyMap,
              iv |-> EmptyMap, ts |-> 0, tc |-> 0]
-Ops ==
+AllOps ==
   { [a |-> "create_study", name |-> "A", dirs |-> <<0>>],
     [a |-> "delete_study", s |-> 1],
-    [a |-> "set_study_ua", s |-> 1, key |-> "k1", v |-> 0],
     [a |-> "create_trial", s |-> 1, tm |-> NoTemplate],
     [a |-> "create_trial", s |-> 1, tm |-> WaitingT],
     [a |-> "set_state", t |-> 1, state |-> "RUNNING", values |-> NoneV],
     [a |-> "set_state", t |-> 1, state |-> "COMPLETE", values |-> <<0>>],
     [a |-> "set_trial_ua", t |-> 1, key |-> "k1", v |-> 1],
-    [a |-> "set_trial_ua", t |-> 2, key |-> "k1", v |-> 1],
     [a |-> "set_param", t |-> 1, name |-> "x", v |-> 3, d |-> DF],
     [a |-> "set_param", t |-> 2, name |-> "x", v |-> 3, d |-> DC0] }
+
+Ops == IF SmallPool THEN {o \in AllOps : o.a \notin {"set_param", "delete_study", "set_trial_ua"}} ELSE AllOps
 
 NoSnap == [has |-> 0]
 Init == /\ log = <<>> /\ cur = [w \in Workers |-> 0] /\ stW = [w \in Workers |-> Empty]
